@@ -52,6 +52,7 @@ def runLine (line : String) : String :=
   match line.trimAscii.toString.splitOn " " with
   | "resp" :: args => opResp args
   | "send" :: args => opSend args
+  | "sendpt" :: args => opSendPt args
   | "pfor" :: args => opPfor args
   | "mpart" :: args => opMpart args
   | "sess" :: args => opSess args
